@@ -12,5 +12,5 @@ assert s.count(old)>=1, "pattern not found"
 s=s.replace(old,new,1)
 open(p,'w').write(s)
 PY
-ONL_REPO=$D /venv/bin/python /verif/run.py $PID --tier quick --no-evidence 2>&1 | cut -c1-260 | tail -5
+ONL_REPO=$D timeout 600 /venv/bin/python /verif/run.py $PID --tier quick --no-evidence 2>&1 | cut -c1-260 | tail -5
 rm -rf $D
